@@ -134,6 +134,7 @@ structure Hist where
   ress : List ResEv := []    -- reversed while parsing
   reqcmp : List (Nat × Bool) := []
   leak : Nat := 0
+  own : List Nat := []
   fatal : Option String := none
   t0 : Int := 0
   deriving Repr
@@ -203,6 +204,7 @@ def parseLine (h : Hist) (line : String) : Hist :=
     { h with ress := e :: h.ress }
   | ["O", "REQCMP", n, v] => { h with reqcmp := h.reqcmp ++ [(toNat n, v == "same")] }
   | ["O", "LEAK", n] => { h with leak := toNat n }
+  | ["O", "OWN", n, "changed", _] => { h with own := toNat n :: h.own }
   | ["O", "FATAL", m] => { h with fatal := some (String.ofList (unhex m)) }
   | _ => h
 
